@@ -631,7 +631,7 @@ def asyncOnFulfilled : List (Nat × String) := [
   (0, "ar.step(res, resType == resultNormal, ex)"),
   (0, "return _undefined")]
 
-/-- model: `asyncResume's throw-in variant (not modelled: awaits of settled values only)` -/
+/-- model: `asyncResumeCA around asyncResume whose resume point is followed by throw_ (await of a rejected promise)` -/
 def asyncOnRejected : List (Nat × String) := [
   (0, "ar.gen.vm.curAsyncRunner = ar"),
   (0, "defer func()"),
@@ -640,7 +640,7 @@ def asyncOnRejected : List (Nat × String) := [
   (0, "ar.step(res, resType == resultNormal, ex)"),
   (0, "return _undefined")]
 
-/-- model: `asyncNew / actEnter / actCall / actBack` -/
+/-- model: `asyncNew / actEnter / actCall / actBack (`entered = true` after ar.step since 917efcc: dropMarkerOnPanic also covers user code reached from ar.step; the model's awaits run no user code in ar.step)` -/
 def asyncStart : List (Nat × String) := [
   (0, "sp := r.vm.sp"),
   (0, "ar.gen.enter()"),
@@ -648,8 +648,8 @@ def asyncStart : List (Nat × String) := [
   (0, "defer ar.gen.dropMarkerOnPanic(&entered)"),
   (0, "ar.vmCall(r.vm, nArgs)"),
   (0, "res, resType, ex := ar.gen.step()"),
-  (0, "entered = true"),
   (0, "ar.step(res, resType == resultNormal, ex)"),
+  (0, "entered = true"),
   (0, "if ex != nil"),
   (1, "r.vm.sp = sp - nArgs - 2"),
   (0, "r.vm.popTryFrame()"),
